@@ -42,9 +42,9 @@ func init() {
 			if idx < n {
 				return map[string]any{"text": hx(enumString(tokenAlphabet, idx)), "src": "enum", "cmds": idx%60 == 0}
 			}
-			if r.P(1, 25) { // records at the ends of the calendar (date arithmetic there can leave the calendar: D11)
-				base := Pick(r, [][3]int{{9999, 12, 20}, {0, 1, 1}})
-				return map[string]any{"text": hx(GenDoc(r, DocOpts{Window: 12, Base: base, MinRecords: 1}).Text), "src": "calendar-end", "cmds": true}
+			if r.P(1, 12) { // records at the ends of the calendar (date arithmetic there can leave the calendar: D11)
+				base := Pick(r, [][3]int{{9999, 12, 30}, {9999, 12, 30}, {0, 1, 1}})
+				return map[string]any{"text": hx(GenDoc(r, DocOpts{Window: 2, Base: base, MinRecords: 1}).Text), "src": "calendar-end", "cmds": true}
 			}
 			switch r.Weighted(3, 3, 2, 2) {
 			case 0:
